@@ -45,7 +45,8 @@ func (c13) Meta() fw.Meta {
 			"(4) the history (inc returns old value / read returns value, Call=before Open, Return=after Close) is linearizable w.r.t. an integer register (porcupine, 60 s timeout => inconclusive); " +
 			"(5) every way an Open/Create can fail after the descriptor exists (0-byte, truncated header, bad method/xff/archive list, header larger than file, body shorter than declared, Create with a read-only flag on an existing file), with GC disabled: a fresh descriptor gets flock(LOCK_EX|LOCK_NB) at once and /proc/self/fd shows no descriptor for the path; (6) closing a handle twice leaves the lock of another, still open handle (whose descriptor typically reuses the number) in place; race detector on. " +
 			"non-trivial = trial in which at least one session waited while another held the file; distinct by the observed acquisition order (which session, writer/reader, goroutine/process, obtained the file in which order)." +
-			" After every failed Open/Create the same path (repaired) is opened again by the same process under a 30 s watchdog.",
+			" After every failed Open/Create the same path (repaired) is opened again by the same process under a 30 s watchdog." +
+			" Even cases add 180 reads through the commands' read path (all archives per read) against writer sessions stamping every archive of a three-archive file; odd cases add 12 rounds of four sessions creating one new path at once (exactly one may succeed and its synced stamp must survive).",
 		Assumptions: []string{
 			"advisory locks bind cooperating default-option handles only (WithoutFlock handles are outside the property)",
 			"recorded [acquired,releasing] intervals are subsets of the real hold intervals, so an observed overlap is a sound conviction; absence of overlap is evidence only for the schedules produced",
